@@ -21,7 +21,7 @@ RULE = ("areas drawn over the signed WGS-84 range (incl. |lat| up to 85 deg and 
         "(area, receiver position); non-trivial = the oracle's two projections agree and the point is outside the tolerance band.")
 ASSUMPTIONS = ["tolerance band max(1 m, 1 % of the semi-axis, disagreement between great-circle and equirectangular projection) around the border is excluded, as the property allows",
                "sender == source in the two-station runs (the implementation can only look up the source's LocTE for Annex D)"]
-REQUIRED_COUNTERS = ["F.judged_in", "F.judged_out", "D.deliveries_judged", "D.forward_judged", "D.size_judged", "F.history_evaluations", "D.sequence_deliveries_judged"]
+REQUIRED_COUNTERS = ["F.judged_in", "F.judged_out", "D.deliveries_judged", "D.forward_judged", "D.size_judged", "F.history_evaluations", "D.sequence_deliveries_judged", "D.annex-D-table-and-packet-position-disagree"]
 
 RADII = (0.0, 0.5, 0.9, 0.98, 1.02, 1.1, 2.0, 10.0)
 SHAPE_NAMES = ("circle", "rect", "elip")
@@ -316,6 +316,75 @@ def run_dseq_case(c, res):
                               f"packet {k} of the sequence: receiver outside, indications {len(got)}", {**c, "_step": k})
 
 
+def run_dstale_case(c, res):
+    """Annex D with a sender whose position in the receiver's location table is NEWER than the one in the packet: the
+    source builds a GBC/GAC packet at P0, the frame is held back on the air, the source moves to P1 and beacons (the receiver
+    learns P1), then the held frame arrives.  The sender position of Annex D is the location-table one (P1)."""
+    from vf.gnharness import World, gn_request, area, mid_of
+    from flexstack.geonet.mib import AreaForwardingAlgorithm
+    from flexstack.geonet.service_access_point import CommonNH
+    ar, kind = c["area"], c["kind"]
+    with World() as w:
+        S = w.add("S", mid_of(1), lat=c["p0"][0], lon=c["p0"][1], pai=bool(c["pai0"]), ports=(2001,),
+                  mib_over={"itsGnAreaForwardingAlgorithm": AreaForwardingAlgorithm.SIMPLE, "itsGnMaxGeoAreaSize": 100000})
+        R = w.add("R", mid_of(2), lat=c["r_pos"][0], lon=c["r_pos"][1], ports=(2001,),
+                  mib_over={"itsGnAreaForwardingAlgorithm": AreaForwardingAlgorithm(c["r_alg"]), "itsGnMaxGeoAreaSize": 100000})
+        try:
+            S.router.gn_data_request(gn_request(kind, b"\x07\xd1\x00\x00stale", shape=SHAPE_NAMES[ar["shape"]],
+                                                ar=area(ar["lat"], ar["lon"], ar["a"], ar["b"], ar["angle"]), nh=CommonNH.BTP_B, hop=5))
+            held = [q for q in w.ether.queue if q[2] == "R"]
+            w.ether.queue.clear()
+            if not held:
+                return
+            w.clock.advance(1.0)
+            S.set_position(c["p1"][0], c["p1"][1], pai=bool(c["pai1"]))
+            S.router.gn_data_request_beacon()
+            w.settle()
+            n_tx0 = len([1 for (_, _, s_, _) in w.ether.wire if s_ == "R"])
+            w.ether.inject("R", held[0][3])
+            w.settle()
+            w.clock.advance(0.3)
+            w.settle()
+        except Exception as e:  # noqa
+            res.violation(f"C07:request-or-reception-raises-{type(e).__name__}", f"{e!r}", c)
+            return
+        if w.ether.errors:
+            res.violation(f"C07:request-or-reception-raises-{type(w.ether.errors[0][3]).__name__}", f"{w.ether.errors[0][3]!r}", c)
+            return
+        rv = oracle(ar, *c["r_pos"])
+        sv1 = oracle(ar, *c["p1"])
+        sv0 = oracle(ar, *c["p0"])
+        if rv != "out" or "band" in (sv0, sv1):
+            res.count("D.band_unjudged")
+            return
+        r_tx = len([1 for (_, _, s_, _) in w.ether.wire if s_ == "R"]) - n_tx0
+        if R.gn_ind:
+            res.violation(f"C07:outside-receiver-delivered[{kind}][{SHAPE_NAMES[ar['shape']]}]{mech(ar, *c['r_pos'])}", "receiver outside, packet delivered", c)
+        want_fwd = not (c["pai1"] and sv1 == "in")
+        would_with_packet_pv = not (c["pai0"] and sv0 == "in")
+        res.count("D.forward_judged")
+        res.count("D.annex-D-with-newer-table-position-judged")
+        if want_fwd != would_with_packet_pv:
+            res.count("D.annex-D-table-and-packet-position-disagree")
+        if bool(r_tx) != want_fwd:
+            res.violation(f"C07:forwarding-choice-differs[{kind}][annex-D:sender-position-is-the-newer-location-table-entry]"
+                          f"[{'table-says-discard' if not want_fwd else 'table-says-forward'}]",
+                          f"forwarded={bool(r_tx)} expected {want_fwd}: location table has the sender {sv1} (PAI {c['pai1']}), the delayed packet says {sv0} (PAI {c['pai0']})", c)
+
+
+def gen_dstale(rng):
+    ar = gen_area(rng)
+    ar["a"], ar["b"] = min(max(ar["a"], 20), 2500), min(max(ar["b"], 20), 2500)
+    rp = place(ar, rng.uniform(0, 2 * math.pi), rng.choice((2.0, 3.0)))
+    r0, r1 = rng.choice(((0.5, 2.0), (2.0, 0.5), (0.5, 0.6), (2.0, 2.5), (0.3, 1.5), (1.5, 0.3)))
+    phi = rng.uniform(0, 2 * math.pi)
+    p0, p1 = place(ar, phi, r0), place(ar, phi + rng.choice((0.0, 0.5)), r1)
+    if rp is None or p0 is None or p1 is None:
+        return None
+    return {"part": "Dstale", "area": ar, "kind": rng.choice(("gbc", "gac", "gac")), "r_pos": list(rp), "p0": list(p0), "p1": list(p1),
+            "pai0": rng.choice((1, 1, 0)), "pai1": rng.choice((1, 1, 0)), "r_alg": rng.choice((1, 1, 2, 0))}
+
+
 def gen_dseq(rng):
     ar = gen_area(rng)
     if ar["shape"] == G.CIRCLE or ar["a"] == ar["b"]:
@@ -375,6 +444,11 @@ def run_d(spec, res):
         n += 1
         run_d_case(c, res)
         res.case(repr(c))
+        if n % 3 == 1:
+            cst = gen_dstale(rng)
+            if cst is not None:
+                run_dstale_case(cst, res)
+                res.case(repr(cst))
         if n % 3 == 0:
             cs = gen_dseq(rng)
             if cs is not None:
@@ -402,6 +476,8 @@ def replay(case, res):
         from flexstack.geonet.mib import MIB
         run_f_case.router = Router(MIB())
         run_f_case(case["area"], case["kind"], [(case["rx"][0], case["rx"][1], case["rho"])], res)
+    elif case.get("part") == "Dstale":
+        run_dstale_case(case, res)
     elif case.get("part") == "Dseq":
         run_dseq_case({k: v for k, v in case.items() if not k.startswith("_")}, res)
     else:
